@@ -60,10 +60,12 @@ type obsJSON struct {
 	Same    *bool   `json:"same_bytecode,omitempty"`
 	Micros  int64   `json:"us"`
 	LexFail string  `json:"lexfail,omitempty"`
+	Parse   string  `json:"parse_stage,omitempty"`
 }
 
 func observed(r Result) obsJSON {
-	return obsJSON{Load: loadNames[r.Load], Msg: r.Msg, NToks: len(r.Toks), LexErr: r.LexErr, Micros: r.Micros, LexFail: r.LexFail}
+	return obsJSON{Load: loadNames[r.Load], Msg: r.Msg, NToks: len(r.Toks), LexErr: r.LexErr, Micros: r.Micros, LexFail: r.LexFail,
+		Parse: []string{"", "accepted", "rejected", "broken"}[r.ParseStage]}
 }
 
 // goFailOf: the Go-side verdict on one answer (nil = fine)
@@ -155,11 +157,15 @@ func main() {
 	r := lib.NewRand(a.Seed)
 	if a.Replay != "" {
 		replay(w, a.Replay)
+	} else if os.Getenv("C08_ONLY") == "parse" { // development: only the token-mutation stream
+		runTokenMutations(w, r.Fork(), a.Tier)
 	} else {
 		corpus(w)
 		runValid(w, r.Fork(), a.Tier)
 		runMalformed(w, r.Fork(), a.Tier)
 		runLoadFile(w, r.Fork(), a.Tier)
+		runPrograms(w, r.Fork(), a.Tier, a.Out)
+		runTokenMutations(w, r.Fork(), a.Tier)
 		runAdversarial(w, a.Tier)
 	}
 	if err := w.Close(); err != nil {
@@ -194,6 +200,14 @@ func replay(w *lib.Writer, path string) {
 			bad = "LoadFile ends in " + loadNames[rs[0].Load] + " but LoadString of the text without its '#' line ends in " + loadNames[rs[1].Load]
 		}
 		addFileCase(w, in, rs[0], bad)
+	case "parse":
+		rs := runAll([]Request{{ID: 0, Src: in.Src, WantParse: true, LimitMs: 3000}}, 1)
+		id := w.NextID()
+		w.Add(lib.Case{Input: in, Observed: observed(rs[0]), Class: "replay", Nontrivial: true, KF: kfParse(in.Src, rs[0]),
+			Coq: fmt.Sprintf("CParse %s %s", cb(in.Src), lib.CoqBool(rs[0].ParseStage == parseAccepted))})
+		if f := goFailOf(rs[0]); f != "" {
+			w.GoFail(id, f)
+		}
 	case "adv":
 		src := advSource(in.Shape, in.N)
 		rs := runAll([]Request{{ID: 0, Src: src, LimitMs: advLimitMs}}, 1)
